@@ -91,3 +91,61 @@ Proof.
   unfold in_range, cmin, cmax, sum_fmt in Hin. cbn [sg nw] in Hin. rewrite Hs in Hin.
   assert (2^(clog2 total + nw f - 1) <= 2^62) by (apply pow2_le; lia). assert (2^62 < 2^63) by (apply pow2_lt; lia). lia.
 Qed.
+
+(* the same for an UNSIGNED operand (the accumulated code is a uint64 while it fits), into a target word below 64 bits *)
+Lemma reduce_into_uint z k ft r o : 1 <= nw ft < 64 -> 0 <= k -> nf ft < 64 -> 0 <= z < 2^63 ->
+  exists w, reduce_into (acc_mval false false z) k ft r o = Ok w /\ int_wres ft o [z * 2^k] w.
+Proof.
+  intros Hw Hk Hnf Hz. unfold reduce_into. replace (k <? 0) with false by lia. cbn [andb].
+  unfold precision_cast. replace (64 <=? nf ft) with false by lia. unfold rescale. replace (k <? 0) with false by lia.
+  assert (P: 0 < 2^k) by (apply pow2_pos; lia). assert (E64: 2^63 < 2^64) by (apply pow2_lt; lia).
+  unfold mscale_raw. replace (k <? 0) with false by lia. cbn [andb acc_mval].
+  destruct (0 <? k) eqn:Ek.
+  - destruct ((63 <=? k) || (2^63 <=? Z.abs z * 2^k)) eqn:Eb; cbn [bind arr_of all_MO all_MU fold_right fst snd].
+    + change [NI (z * 2^k)] with (map NI [z * 2^k]). apply set_val_raw_obj; lia.
+    + assert (Hc: 0 <= z * 2^k < 2^63) by (rewrite (Z.abs_eq z) in Eb by lia; split; [apply Z.mul_nonneg_nonneg; lia | lia]).
+      assert (Hm: map wrap_u64 [z * 2^k] = [z * 2^k]) by (cbn [map]; rewrite wrap_u64_small by lia; reflexivity).
+      destruct (set_val_raw_u64 ft r o [z * 2^k] Hw ltac:(constructor; [lia|constructor])) as (w & Hs & Hi).
+      rewrite Hm in Hs. exists w. split; assumption.
+  - assert (k = 0) by lia. subst k. unfold mscale. cbn [Z.leb Z.compare]. change (2^0) with 1.
+    replace (fits_u64 1) with true by reflexivity. rewrite Z.mul_1_r, wrap_u64_small by lia.
+    cbn [bind arr_of all_MU fold_right fst snd].
+    assert (Hm: map wrap_u64 [z] = [z]) by (cbn [map]; rewrite wrap_u64_small by lia; reflexivity).
+    destruct (set_val_raw_u64 ft r o [z] Hw ltac:(constructor; [lia|constructor])) as (w & Hs & Hi).
+    rewrite Hm in Hs. exists w. split; assumption.
+Qed.
+
+Theorem sum_into_more_fraction_bits_unsigned f total l ft r o :
+  sg f = false -> 1 <= nw f -> 1 <= total -> Z.of_nat (length l) <= total -> Forall (in_range f) l ->
+  1 <= nw ft -> (clog2 total + nw f < 64 -> nw ft < 64) -> 0 <= nf ft - nf f -> nf ft < 64 ->
+  exists w, fxp_sum_into f total l ft r o = Ok w /\ int_wres ft o [zsum l * 2^(nf ft - nf f)] w.
+Proof.
+  intros Hs Hw Ht Hlen Hr Hwt Hnar Hk Hnf. unfold fxp_sum_into. cbv zeta. rewrite Hs.
+  pose proof (sum_in_range f total l Hw Hlen Ht Hr) as Hin. pose proof (clog2_nonneg total) as Hc0.
+  unfold in_range, cmin, cmax, sum_fmt in Hin. cbn [sg nw] in Hin. rewrite Hs in Hin.
+  destruct (64 <=? clog2 total + nw f) eqn:E.
+  - (* Python integers: the signed statement's object branch *)
+    rewrite sum_py_zsum. unfold reduce_into. replace (nf ft - nf f <? 0) with false by lia. cbn [andb].
+    unfold precision_cast. replace (64 <=? nf ft) with false by lia. unfold rescale. replace (nf ft - nf f <? 0) with false by lia.
+    unfold mscale_raw. replace (nf ft - nf f <? 0) with false by lia. cbn [andb acc_mval].
+    destruct (0 <? nf ft - nf f) eqn:Ek; unfold mscale; replace (0 <=? nf ft - nf f) with true by lia; cbn [num_mul bind arr_of all_MO fold_right fst snd];
+      change [NI (zsum l * 2^(nf ft - nf f))] with (map NI [zsum l * 2^(nf ft - nf f)]); apply set_val_raw_obj; exact Hwt.
+  - replace (sum_i64 false l) with (sum_i64 (sg f) l) by (rewrite Hs; reflexivity). rewrite (sum_narrow_exact f total l Hw Ht Hlen ltac:(lia) Hr).
+    apply reduce_into_uint; try lia.
+    assert (2^(clog2 total + nw f) <= 2^63) by (apply pow2_le; lia). lia.
+Qed.
+
+(* product into a format with at least as many fraction bits as the exact product has (signed operand) *)
+Theorem prod_into_more_fraction_bits f l ft r o :
+  sg f = true -> 1 <= nw f -> (1 <= length l)%nat -> Forall (in_range f) l ->
+  1 <= nw ft -> 0 <= nf ft - Z.of_nat (length l) * nf f -> nf ft < 64 ->
+  exists w, fxp_prod_into f (Z.of_nat (length l)) l ft r o = Ok w /\ int_wres ft o [zprod l * 2^(nf ft - Z.of_nat (length l) * nf f)] w.
+Proof.
+  intros Hs Hw Hne Hr Hwt Hk Hnf. unfold fxp_prod_into. cbv zeta.
+  rewrite (prod_sel_exact f l Hw Hne Hr). rewrite Hs. apply reduce_into_int; try assumption.
+  intros Hnar. pose proof (prod_in_range f l Hw Hne Hr) as Hin.
+  set (n := Z.of_nat (length l)) in *. assert (Hn: 1 <= n) by (unfold n; lia).
+  unfold in_range, cmin, cmax, prod_fmt in Hin. cbn [sg nw] in Hin. rewrite Hs in Hin.
+  assert (n * nw f <= 63) by lia. assert (1 <= n * nw f) by nia.
+  assert (2^(n * nw f - 1) <= 2^62) by (apply pow2_le; lia). assert (2^62 < 2^63) by (apply pow2_lt; lia). lia.
+Qed.
